@@ -19,7 +19,11 @@ P = {
             "consumer of Client.Channel() only holds the reports and compares all bundles held so far with the bundles sent at every "
             "quiescent point (all acknowledged, all reports taken) and after Close: none missing, none extra, none changed later; cpair = "
             "two real Clients, 1..4 phases of up to 12 bundles per direction sent by 1..8 goroutines per side, same comparison on both "
-            "sides. distinct = distinct case bodies",
+            "sides; cbusy = Client against a scripted peer announcing a keepalive interval of 2 s (thorough also 1, 3 s), transfers in both "
+            "directions every 40 ms for more than two intervals (no KEEPALIVE ever needed): session not lost, every Send ok, complete at "
+            "the peer, every transfer of the peer handed up (judged only when the harness itself kept gaps below a third of the interval, "
+            "else rerun, after 3 attempts inconclusive); thorough: one transfer of ~94 segments whose acknowledgements arrive one every "
+            "130 ms (12 s in all, longer than Send's 10 s timeout): Send ok and complete. distinct = distinct case bodies",
     "assumptions": [
         "acknowledgements seen by Send are lengths an honest receiver of that transfer produces (honest_event); a peer that "
         "acknowledges length 0 before the sender finished makes Send return success early (Example tcpcl_send_ack_zero_hole)",
